@@ -1,1 +1,46 @@
-fn main(){}
+mod c18;
+mod gate;
+mod hist;
+mod machine;
+mod payload;
+
+#[global_allocator]
+static ALLOC: payload::Counting = payload::Counting;
+
+fn main() {
+    let args: Vec<String> = std::env::args().skip(1).collect();
+    let Some(id) = args.first().cloned() else {
+        eprintln!("usage: vconc <ID> [--tier quick|thorough] [--replay FILE]");
+        std::process::exit(2);
+    };
+    let rest = &args[1..];
+    let code = match id.as_str() {
+        "C18" => vcommon::driver::main_for(&c18::C18, rest),
+        "C06" | "C07" | "C12" | "C19" | "C20" => {
+            let id: &'static str = Box::leak(id.clone().into_boxed_str());
+            vcommon::driver::main_for(&hist::HistCheck { id }, rest)
+        }
+        "scan-sort" => {
+            use vcommon::driver::Check;
+            for arr in 0..9u8 {
+                for &n in &[100u32, 500, 2000, 5000, 20000] {
+                    for salt in 0..6u32 {
+                        for &distinct in &[0u32, 2, 3, 17] {
+                            let c = c18::SortCase { n, arrangement: arr, salt, distinct, threads: 1, cancel_at: None, total: false, nucleo_items: 0 };
+                            let o = c18::C18.run(&c);
+                            if o.labels.contains(&"branch:heapsort") {
+                                println!("heapsort: {c:?}");
+                            }
+                        }
+                    }
+                }
+            }
+            0
+        }
+        _ => {
+            eprintln!("unknown property {id}");
+            2
+        }
+    };
+    std::process::exit(code);
+}
